@@ -51,6 +51,19 @@ impl FileOperations for WriteAheadLog {
         let fs_block_size = FileSystem::block_size(&path)?;
         let default_block_size = WAL_BLOCK_SIZE.next_multiple_of(fs_block_size);
 
+        // A log that was truncated (or just created) and not yet forced again has no header on disk:
+        // the process died in between. It is an empty log, not a damaged one.
+        if file.metadata()?.len() < default_block_size as u64 {
+            return Ok(Self {
+                header: BlockZero::alloc(0, default_block_size),
+                current_block: None,
+                flush_queue: VecDeque::new(),
+                file,
+                block_size: default_block_size,
+                flushed_blocks: 0,
+            });
+        }
+
         // Read block 0 (global header)
         let mut header_buf: BlockZero = BlockZero::new(default_block_size);
         file.seek(SeekFrom::Start(0))?;
